@@ -26,7 +26,7 @@ impl Hooks for ElapsedScript {
     }
 }
 
-const QUERIES: [(&str, bool); 60] = [
+const QUERIES: [(&str, bool); 71] = [
     ("UNWIND range(1, 6) AS x RETURN x", false),
     ("UNWIND range(1, 4) AS x UNWIND range(1, 4) AS y RETURN x, y", false),
     ("UNWIND [1, 2, 3, 4, 5, 6] AS x RETURN x", false),
@@ -87,6 +87,19 @@ const QUERIES: [(&str, bool); 60] = [
     ("MATCH (a), (b) WHERE a.uid < b.uid RETURN count(*) AS c", false),
     ("MATCH (a) WHERE any(x IN range(1, 6) WHERE x = a.uid) RETURN a.uid AS a", false),
     ("RETURN [x IN range(1, 4) | [y IN range(1, x) | y]] AS l", false),
+    // ranges that exceed every limit: the only acceptable outcome is a resource-limit error
+    ("RETURN size(range(1, -9223372036854775807, -1)) AS x", false),
+    ("RETURN size(range(-9223372036854775808, 9223372036854775807)) AS x", false),
+    ("RETURN size(range(9223372036854775807, -9223372036854775808, -1)) AS x", false),
+    ("UNWIND range(0, 9223372036854775807) AS x RETURN count(x) AS c", false),
+    ("UNWIND range(0, -9223372036854775808, -1) AS x RETURN count(x) AS c", false),
+    // EXISTS subqueries in projection position (their errors travel through the deferred-error channel)
+    ("MATCH (a) RETURN a.uid AS a, EXISTS { MATCH (a)-[*1..3]->(b) WHERE b.uid = 4 } AS e", false),
+    ("MATCH (a) WITH a, EXISTS { MATCH (a)-[*1..3]->(b) } AS e WHERE e RETURN a.uid AS a", false),
+    ("MATCH (a) WITH a, NOT EXISTS { MATCH (a)-[*1..3]->(b) WHERE b.uid = 4 } AS e RETURN a.uid AS a, e ORDER BY a", true),
+    ("MATCH (a) UNWIND [EXISTS { MATCH (a)-[*1..2]->(b) }] AS e RETURN a.uid AS a, e", false),
+    ("MATCH (a) RETURN count(CASE WHEN EXISTS { MATCH (a)-[*1..3]->(b) } THEN 1 END) AS c", false),
+    ("UNWIND range(1, 3) AS x CALL { WITH x MATCH (a) WHERE EXISTS { MATCH (a)-[*1..2]->(b) } RETURN count(a) AS c } RETURN x, c", false),
 ];
 
 #[derive(Clone, Copy, Debug, PartialEq, Eq, Hash)]
@@ -152,7 +165,7 @@ fn run(db: &QDb, q: &str, limit: Option<Limit>) -> Outcome {
 pub fn c33(tier: Tier) -> i32 {
     let rep = Report::new("C33", tier);
     let sizes: Vec<usize> = if tier == Tier::Thorough { (0..=130).collect() } else { (0..=40).collect() };
-    rep.rule(&format!("{} queries with large intermediate results relative to the limits (cartesian products, UNWIND of ranges, variable-length expansion, aggregation, ORDER BY, DISTINCT, comprehensions, CALL {{}}, OPTIONAL MATCH, UNION, SKIP / LIMIT) on a fixed 5-node graph x every setting of one limit: max_intermediate_rows, max_collection_items, max_apply_rows_per_outer in {:?}, and the soft timeout expiring at EVERY timeout check position k = 0..=T (T = number of timeout checks of the unlimited run; the elapsed time is a scripted hook); oracle: the limited run returns exactly the rows of the unlimited run (same multiset; same sequence for ordered queries) or fails with ResourceLimitExceeded - never other rows, another error or a panic; after the scripted time has expired at most 8 further timeout checks happen, a constant of the operator pipeline depth that does not grow with the data (bounded extra work; the unlimited runs perform up to several dozen checks); non-trivial = limited runs that hit their limit", QUERIES.len(), sizes));
+    rep.rule(&format!("{} queries with large intermediate results relative to the limits (cartesian products, UNWIND of ranges, variable-length expansion, aggregation, ORDER BY, DISTINCT, comprehensions, CALL {{}}, OPTIONAL MATCH, UNION, SKIP / LIMIT) on a fixed 5-node graph x every setting of one limit: max_intermediate_rows, max_collection_items, max_apply_rows_per_outer in {:?}, and the soft timeout expiring at EVERY timeout check position k = 0..=T (T = number of timeout checks of the unlimited run; the elapsed time is a scripted hook); plus ranges over the whole i64 span (every run must end in a resource-limit error); oracle: the limited run returns exactly the rows of the unlimited run (same multiset; same sequence for ordered queries) or fails with ResourceLimitExceeded - never other rows, another error or a panic; after the scripted time has expired at most 8 further timeout checks happen, a constant of the operator pipeline depth that does not grow with the data (bounded extra work; the unlimited runs perform up to several dozen checks); non-trivial = limited runs that hit their limit", QUERIES.len(), sizes));
     let cases: Vec<(usize, Option<Limit>)> = {
         // placeholder list; timeout positions are added per query below
         let mut v = Vec::new();
@@ -177,7 +190,10 @@ pub fn c33(tier: Tier) -> i32 {
     let baselines: Vec<Outcome> = QUERIES.iter().map(|(q, _)| run(&base_db, q, None)).collect();
     for (i, b) in baselines.iter().enumerate() {
         if let Err(e) = &b.result {
-            rep.violation(Violation { class: "harness:unlimited_run_fails".into(), kinds: vec![format!("q{i}")], replay: json!({"query": QUERIES[i].0}), detail: e.clone() });
+            // queries that exceed even the default limits: every run must end in a resource-limit error
+            if !e.contains("ResourceLimitExceeded") {
+                rep.violation(Violation { class: "unlimited_run_fails_with_another_error".into(), kinds: vec![format!("q{i}")], replay: json!({"query": QUERIES[i].0}), detail: e.clone() });
+            }
         }
     }
     let mut all_cases = cases;
@@ -200,7 +216,30 @@ pub fn c33(tier: Tier) -> i32 {
         .collect();
     for (qi, lim, oc) in results {
         let (q, ordered) = QUERIES[qi];
-        let Ok(want) = &baselines[qi].result else { continue };
+        let want = match &baselines[qi].result {
+            Ok(w) => w,
+            Err(_) => {
+                rep.add_states(1);
+                rep.add_transitions(1);
+                rep.add_traces(1);
+                match &oc.result {
+                    Err(e) if e.contains("ResourceLimitExceeded") => {
+                        rep.add_nontrivial(1);
+                        rep.outcome("resource_limit_error");
+                    }
+                    other => {
+                        let class = match other {
+                            Err(e) if e.starts_with("PANIC") => "panic_under_limit",
+                            Err(_) => "other_error_under_limit",
+                            Ok(_) => "result_although_over_the_default_limits",
+                        };
+                        rep.outcome(class);
+                        rep.violation(Violation { class: class.into(), kinds: vec![lim.kind(), format!("q:{}", QUERIES[qi].0.chars().take(40).collect::<String>())], replay: json!({"engine": "limits", "query": QUERIES[qi].0, "limit": format!("{lim:?}")}), detail: format!("{} with {lim:?}: {}", QUERIES[qi].0, match other { Ok(r) => format!("{} rows", r.len()), Err(e) => truncate(e, 200) }) });
+                    }
+                }
+                continue;
+            }
+        };
         rep.add_states(1);
         rep.add_transitions(1);
         rep.add_traces(1);
